@@ -52,6 +52,24 @@ def build(rng, tier):
                 cases.append(engcheck.Case(pid, inst2, engcheck.std_history(inst2, pid, dup), {"inp": dup, "kind": "dup-input", "class": "F15"}))
                 inst3 = f"{pid}_{j}r"
                 cases.append(engcheck.Case(pid, inst3, engcheck.std_history(inst3, pid, inp, [f"eng run {inst3}", f"eng dump {inst3}"]), {"inp": inp, "kind": "rerun", "was": "F2"}))
+    # forced shape "aggregate over an EMPTY relation next to a join": the rule has three positive clauses, or two that are not a simple join (so the "some body relation is empty" shortcut is generated)
+    # and aggregates / negates a relation that holds NO row at all: count = 0, sum = 0, negation holds - the rule must fire (only POSITIVE clauses may trigger the shortcut)
+    ea = {"rels": [{"arity": 1}, {"arity": 1}, {"arity": 2}, {"arity": 2}, {"arity": 1}, {"arity": 2}],
+          "rules": [{"heads": [(3, [("var", 0), ("var", 21)])], "body": [("cl", 0, [("v", 0)], []), ("cl", 1, [("v", 0)], []), ("cl", 0, [("v", 1)], []), ("agg", [21], "count", [], 2, [("k", ("var", 0)), "_"])]},
+                    {"heads": [(4, [("var", 0)])], "body": [("cl", 0, [("v", 0)], []), ("cl", 1, [("e", ("add", ("var", 0), 0))], []), ("agg", [], "not", [], 2, [("k", ("var", 0)), "_"])]},
+                    {"heads": [(5, [("var", 0), ("var", 21)])], "body": [("cl", 0, [("v", 0)], []), ("cl", 1, [("v", 1)], []), ("cl", 1, [("v", 0)], []), ("agg", [21], "sum", [20], 2, [("k", ("var", 0)), ("b", 20)])]}]}
+    progs["aempty"] = ea
+    mods.append(("aempty", eng.rs_module("aempty", ea)))
+    for j in range(6 if tier == "quick" else 20):
+        r5 = rng.fork(f"aempty{j}")
+        a = [(x,) for x in range(r5.range(1, 5))]
+        b = [(x,) for x in range(r5.range(1, 6)) if r5.chance(2, 3)] or [(0,)]
+        c = [] if j % 2 == 0 else [(r5.below(4), r5.below(5)) for _ in range(r5.range(1, 3))]
+        inp = {0: a, 1: b, 2: list(dict.fromkeys(c))}
+        inst = f"aempty_{j}"
+        hist = engcheck.std_history(inst, "aempty", inp)
+        if j % 3 == 1: hist = [o.replace("eng run ", "eng runp ") for o in hist]
+        cases.append(engcheck.Case("aempty", inst, hist, {"inp": inp, "kind": "agg-over-empty-relation"}))
     # aggregation over LATTICE relations through a non-unique index (strict subset of the key columns bound): one row per key, also after
     # rows were improved in place (serial mode; the theorems do not cover lattices + aggregation: tie only)
     lat_list = engcheck.make_programs(rng.fork("c04lat"), 8 if tier == "quick" else 40, genf=gen.gen_agg_lat_program,
